@@ -144,6 +144,57 @@ func c16R1(ic *IC, r *Report) {
 	}
 	r.Check(d1 && len(late) == 0 && len(sinks) >= 4, "R16.1", "importSrc/cycle-mark", ic.pos(mark.Pos()), fmt.Sprintf("test, then mark, then %d loading/recursing calls", len(sinks)),
 		fmt.Sprintf("importSrc: the cycle mark is not set after the cycle test and before the calls that can recurse (test dominates mark: %v; calls not dominated by the mark: %v): a cycle recurses until the stack overflows, or an acyclic import is reported as a cycle", d1, late))
+	// the mark says "being imported": it is removed when importSrc returns, on every path (a
+	// deferred delete under the same key, registered right after the mark, or a delete passed
+	// by every path from the mark to an exit). A mark left behind by a failed import makes a
+	// later import of the (repaired) package an "import cycle".
+	{
+		mk := ""
+		for _, l := range mark.Lhs {
+			if ix, ok := unparen(l).(*ast.IndexExpr); ok && selField(ic.Info, ix.X) == rdir {
+				mk = types.ExprString(ix.Index)
+			}
+		}
+		isDelete := func(c *ast.CallExpr) bool {
+			if id, ok := c.Fun.(*ast.Ident); !ok || id.Name != "delete" || len(c.Args) != 2 {
+				return false
+			}
+			return selField(ic.Info, c.Args[0]) == rdir && types.ExprString(c.Args[1]) == mk
+		}
+		cleared := false
+		ast.Inspect(is.Decl.Body, func(n ast.Node) bool {
+			if ds, ok := n.(*ast.DeferStmt); ok {
+				if isDelete(ds.Call) {
+					if d, ok := fg.dominates(mark, ds); ok && d {
+						cleared = true
+					}
+				}
+				if fl, ok := ds.Call.Fun.(*ast.FuncLit); ok {
+					for _, c := range allCalls(fl.Body) {
+						if isDelete(c) {
+							cleared = true
+						}
+					}
+				}
+			}
+			return true
+		})
+		if !cleared {
+			leak, _ := fg.exitsWithout(mark, func(n ast.Node) bool {
+				found := false
+				ast.Inspect(n, func(k ast.Node) bool {
+					if c, ok := k.(*ast.CallExpr); ok && isDelete(c) {
+						found = true
+					}
+					return true
+				})
+				return found
+			})
+			cleared = !leak
+		}
+		r.Check(cleared, "R16.1", "importSrc/cycle-mark-removed", ic.pos(mark.Pos()), "the in-progress mark is removed when importSrc returns",
+			"importSrc sets the in-progress mark "+types.ExprString(mark.Lhs[0])+" and can return without removing it: after an import that failed (a compile error in the package), importing the package again - once repaired, or from another Eval - is reported as \"import cycle not allowed\" although nothing is being imported")
+	}
 	// (c) relative branch
 	nameFld := ic.field("Interpreter", "name")
 	var relIf *ast.IfStmt
